@@ -188,7 +188,7 @@ fn read_back(sig: &str, pos: usize, b: &[u8]) -> String {
 
 pub fn observe<T>(v: &T, pos: usize) -> String
 where
-    T: Type + Serialize + DeserializeOwned + PartialEq + std::fmt::Debug,
+    T: Type + Serialize + DeserializeOwned + PartialEq,
 {
     let sig = T::SIGNATURE.to_string();
     let enc = |c: Context| catch_unwind(AssertUnwindSafe(|| zvariant::to_bytes(c, v)));
